@@ -133,6 +133,26 @@ def model_line(kp, c, K):
     return line, e
 
 
+def _iteration_diverges(kp, c, e, fe, nx, m):
+    """does the explicit iteration of the one-step prediction (predict on the window of the previously predicted states
+    and the true inputs) leave the floating-point range on some episode of the case?"""
+    A = np.array(c['rows_lab'], dtype=float)
+    Xfull = A if e else A[:, 1:]
+    for l, Xe in st.episodes(Xfull, e).items():
+        S = [row.copy() for row in Xe[:m, :nx]]
+        for k in range(m, Xe.shape[0]):
+            W = np.hstack((np.array(S[k - m:k]), Xe[k - m:k, nx:]))
+            try:
+                with np.errstate(all='ignore'):
+                    one = kp.predict(st.ref_combine([(l, W)], fe))[-1, (1 if fe else 0):]
+            except Exception:
+                return True
+            if not np.all(np.isfinite(one)) or np.max(np.abs(one)) > 1e150:
+                return True
+            S.append(one)
+    return False
+
+
 def _oracle(c, rng):
     """the property statement on the implementation, float data, contractive Koopman matrix"""
     if rng.random() < 0.3:
@@ -155,6 +175,11 @@ def _oracle(c, rng):
     try:
         Xp = kp.predict_trajectory(X0, U, relift_state=True, return_input=True, episode_feature=c['call'])
     except Exception as ex:
+        if isinstance(ex, ValueError) and _iteration_diverges(kp, c, e, fe, nx, m):
+            # an episode whose overflow first shows inside the lifting chain makes the whole call raise (known finding
+            # F-abort, covered by the divergence probe); confirmed here by iterating the one-step prediction
+            # independently - a ValueError on a trajectory that stays finite is NOT excused
+            return None, None
         return f'predict_trajectory raised {type(ex).__name__}: {ex}', tags
     if not np.all(np.isfinite(Xp)):
         # the prediction left the floating-point range (polynomial liftings grow doubly exponentially): the divergence
